@@ -153,7 +153,8 @@ package ast
 //@   ensures err != nil ==> err_mentions(err, e.RuleName)
 //@   ensures old($cancelled) ==> err != nil && wrapsCtx(err, ctx)
 //@   ensures old($ctxErrSeen) ==> $ctxErrSeen
-//@   ensures $ctxErrSeen && !old($ctxErrSeen) ==> wrapsCtx(err, ctx)
+//@   ensures $ctxErrSeen && !old($ctxErrSeen) ==> wrapsCtx(err, ctx) && $cancelled
+//@   ensures old($cancelled) ==> $cancelled
 //@   ghost_exit $evalCnt = store($evalCnt, e, ite($evalStamp[e] == $stamp, $evalCnt[e] + 1, 1))
 //@   ghost_exit $evalStamp = store($evalStamp, e, $stamp)
 //@   ghost_exit $evalCand = store($evalCand, e, can)
@@ -185,7 +186,8 @@ package ast
 //@   ensures forall d Ref :: old($complete[d]) ==> $complete[d]
 //@   ensures old($cancelled) ==> err != nil && wrapsCtx(err, ctx)
 //@   ensures old($ctxErrSeen) ==> $ctxErrSeen
-//@   ensures $ctxErrSeen && !old($ctxErrSeen) ==> wrapsCtx(err, ctx)
+//@   ensures $ctxErrSeen && !old($ctxErrSeen) ==> wrapsCtx(err, ctx) && $cancelled
+//@   ensures old($cancelled) ==> $cancelled
 //@   ghost_entry $runExec = $runExec + 1
 //@   ghost_entry $execStamp = $stamp
 //@   ghost_exit $actionFailed = err != nil
